@@ -107,10 +107,11 @@ Print Assumptions C20_allfail_complete.
 
 (* DOUBLE FAULT in the error-translation path: the method's native call fails with e1 AND every follow-up probe the
    error path makes (is_zombie's kinfo re-read, pid_exists -> os.kill / psinfo, pids() for the PID-0 rule) fails with
-   an independently chosen e2.  For EVERY platform, method / call names, e1, e2 and pid the model's outcome lies in the
-   acceptable set (Spec.probe_allowed) ... *)
+   an independently chosen e2 -- each probe only with errnos its system call can return (os.kill(pid, 0): ESRCH, EPERM;
+   os.path.exists never raises).  For EVERY platform, method / call names, e1, e2 and pid the model's outcome lies in the
+   acceptable set (Spec.probe_allowed), no exclusion ... *)
 Theorem C20_probe_model : forall p meth site e1 e2 z,
-  err_ok p e1 = true -> err_ok p e2 = true -> known_probe_raw p meth site e1 e2 z = false ->
+  err_ok p e1 = true -> err_ok p e2 = true ->
   In (probe_outcome p meth site e1 e2 z) (probe_allowed p meth site e1 e2 z).
 Proof. exact probe_model. Qed.
 Print Assumptions C20_probe_model.
@@ -118,7 +119,7 @@ Print Assumptions C20_probe_model.
 (* ... in particular a "no such process" or permission failure of the method's own call (with no documented fall-back)
    never ends as a bare OSError -- neither the original one nor the probe's -- nor as a normal return *)
 Theorem C20_probe_no_raw : forall p meth site e1 e2 z,
-  err_ok p e1 = true -> err_ok p e2 = true -> known_probe_raw p meth site e1 e2 z = false ->
+  err_ok p e1 = true -> err_ok p e2 = true ->
   nosuch_failure p meth site e1 || perm_failure e1 = true ->
   (forall s, recovery p meth site (Build_cond e1 s z) = None) ->
   probe_outcome p meth site e1 e2 z <> RRaw /\ probe_outcome p meth site e1 e2 z <> RRawProbe
@@ -126,20 +127,11 @@ Theorem C20_probe_no_raw : forall p meth site e1 e2 z,
 Proof. exact probe_no_raw. Qed.
 Print Assumptions C20_probe_no_raw.
 
-(* finding (excluded above): Solaris asks _psposix.pid_exists() -> os.kill(pid, 0), which absorbs ESRCH and EPERM only *)
-Theorem C20_probe_sunos_refuted :
-  err_ok SunOS ESRCH = true /\ nosuch_failure SunOS "cmdline" "proc_name_and_args" ESRCH = true
-  /\ probe_outcome SunOS "cmdline" "proc_name_and_args" ESRCH EIO false = RRawProbe
-  /\ existsb (res_eqb RRawProbe) (probe_allowed SunOS "cmdline" "proc_name_and_args" ESRCH EIO false) = false.
-Proof. exact probe_sunos_refuted. Qed.
-Print Assumptions C20_probe_sunos_refuted.
-
 (* the CODE on the double faults: every (platform but Windows, which has no probe) x method x native call x e1 x e2 x pid
    -- outcome in the acceptable set, pid and cached name carried, and equal to the model; a block for every ladder block *)
 Theorem C20_probe_contract : forall b, In b probe_blocks ->
   Forall2 (fun q g => match q with (e1, e2, z) =>
-             (known_probe_raw (l_plat b) (l_meth b) (l_site b) e1 e2 z = false ->
-              gout_in (probe_allowed (l_plat b) (l_meth b) (l_site b) e1 e2 z) g = true)
+             gout_in (probe_allowed (l_plat b) (l_meth b) (l_site b) e1 e2 z) g = true
              /\ gout_ok (Some (probe_outcome (l_plat b) (l_meth b) (l_site b) e1 e2 z)) g = true end)
           (probe_conds (l_plat b)) (l_outs b).
 Proof. exact probe_contract. Qed.
